@@ -54,6 +54,20 @@ ENDINGS = [
     "a = { #t = \"x\" }", "a = { #t=b }", "a = { b } a = { c }", "EOI = { \"x\" }", "a = { \"\n\" }",
 ]
 
+# Large texts, loaded as they are (no prefixes): long flat chains must not need a stack frame per operand;
+# deep nesting does (known finding K04) and is only counted.
+BIG_TEXTS = [
+    "a = { " + " | ".join(['"x"'] * 2500) + " }",
+    "a = { " + " ~ ".join(["b"] * 2500) + " }\nb = { \"x\" }",
+    "a = { " + " | ".join(['"x" ~ b ~ "z"'] * 900) + " }\nb = { \"y\" }",
+    "a = { b" + "?" * 3000 + " }\nb = { \"y\" }",
+    "\n".join(f"r{i} = {{ \"x\" }}" for i in range(1500)),
+    "a = { " + "(" * 3000 + '"x"' + ")" * 3000 + " }",
+    "a = { " + "!" * 6000 + '"x" }',
+    "a = { " + "PUSH(" * 2500 + '"x"' + ")" * 2500 + " }",
+]
+NESTING_CHARS = "(!&"
+
 
 # ----------------------------------------------------------------------------- worker side
 
@@ -74,11 +88,13 @@ def load_texts(req):
         except budget.BudgetExceeded:
             out.append(("budget",))
         except RecursionError:
-            # Deep nesting legitimately exhausts the interpreter stack (limit 4000 here; the front end needs a
-            # handful of frames per nesting level): inconclusive. A short text cannot nest that deep, so there it
-            # is an unbounded recursion - an exception type other than PestGrammarError escaping.
-            if len(text) < SHORT_TEXT:
-                out.append(("exc", "RecursionError", "short text", f"text of {len(text)} characters"))
+            # Known finding K04: every level of nesting (parentheses, PUSH(, prefix operators) costs the
+            # recursive-descent front end a handful of stack frames, so a deeply nested text exhausts the
+            # interpreter stack (limit 4000 here). That is only counted. A text with fewer than 100 nesting
+            # characters cannot nest that deep: there a RecursionError is an unbounded or per-operand
+            # recursion, i.e. an exception type other than PestGrammarError escaping.
+            if sum(text.count(c) for c in NESTING_CHARS) < MIN_NESTING:
+                out.append(("exc", "RecursionError", "not nested", f"text with {sum(text.count(c) for c in NESTING_CHARS)} nesting characters"))
             else:
                 out.append(("recursion",))
         except Exception as err:  # noqa: BLE001
@@ -148,7 +164,7 @@ def check_error(err, text):
 # ----------------------------------------------------------------------------- driver side
 
 
-SHORT_TEXT = 300
+MIN_NESTING = 100
 MAX_TIMEOUTS = 8  # per shard and side; beyond it the rest of a timed-out batch is reported as not run
 
 
@@ -275,6 +291,8 @@ def run_shard(ctx: Ctx, spec):
             for e in ENDINGS:
                 texts.extend(e[:o] for o in range(len(e) + 1))
             run_texts(ctx, modes, texts, "endings")
+        if idx == 1:
+            run_texts(ctx, modes, BIG_TEXTS, "big")
 
         # 4. token soups
         @hypothesis.seed(ctx.sub_seed("soup"))
@@ -311,6 +329,8 @@ def replay(case):
         w = m.raw if case["optimizer"] == "raw" else m.opt
         out = w.call("pestverif.props.c11:load_texts", {"texts": [case["text"]]})[0]
         cls = judge(out)
+        if case.get("known") == "K04" and out[0] == "recursion":
+            return f"[{case['optimizer']}] RecursionError escapes Parser.from_grammar for a deeply nested text"
         if cls in (None, "skip"):
             return None
         return f"[{case['optimizer']}] {cls}: Parser.from_grammar({case['text'][:200]!r}) -> {out}"
